@@ -45,6 +45,21 @@ Section Defs.
       /\ (L1q p -> (2 <= e_depth mv e)%nat -> e_bound mv e <> Upper -> e_score mv e <= -32000).
 End Defs.
 
+(* the best-move slots never name a move that allows a mate in one, unless the score says "lost" (in the style of best_sound) *)
+Section DefsAvoid.
+  Variables pos mv : Type.
+  Variable moves : pos -> list mv.
+  Variable legal : pos -> mv -> bool.
+  Variable make : pos -> mv -> pos.
+  Variable in_check : pos -> bool.
+  Variable halfmove : pos -> N.
+  Variable repeated : pos -> bool.
+
+  Definition best_avoid (root : pos) (s : St mv) : Prop :=
+    forall sc, best_score mv s = Some sc -> -32000 < sc ->
+      exists m, best_move mv s = Some m /\ ~ W1 pos mv moves legal make in_check halfmove repeated (make root m).
+End DefsAvoid.
+
 Lemma empty_cache_complete pos mv moves legal make in_check key halfmove repeated :
   tt_complete pos mv moves legal make in_check key halfmove repeated (init_st mv).
 Proof.
@@ -543,8 +558,13 @@ Section Seen.
   Qed.
 
   (* ---------------- the root ---------------- *)
+  Local Notation bavoid := (best_avoid pos mv moves legal make in_check halfmove repeated).
+
   Lemma ttc_set_best (s : State) m v : ttc s -> ttc (set_best mv s m v).
   Proof. intros H p e F. exact (H p e F). Qed.
+  Lemma bavoid_eq root (s s' : State) : best_move mv s' = best_move mv s -> best_score mv s' = best_score mv s ->
+    bavoid root s -> bavoid root s'.
+  Proof. intros A B H sc. rewrite A, B. apply H. Qed.
 
   Definition RootSeen (root : pos) (s' : State) : Prop :=
     exists m sc, best_move mv s' = Some m /\ best_score mv s' = Some sc /\ 32000 <= sc /\ In m (lmoves root).
@@ -558,18 +578,24 @@ Section Seen.
       (forall m, In m ms -> In m (moves root)) -> tts s -> ttc s -> run_ s = true ->
       ((cnt = 0%nat /\ alpha = -32768) \/ (cnt <> 0%nat /\ -32766 <= alpha <= 32766 /\ In best (lmoves root))) ->
       (L1q root -> (2 <= d)%nat -> cnt <> 0%nat -> alpha <= -32000) ->
+      (cnt = 0%nat -> forall m, In m (lmoves root) -> In m ms) ->
+      ((2 <= d)%nat -> cnt <> 0%nat -> -32000 < alpha -> ~ W1 (make root best)) ->
       (sel (rootlp rec root d ms s alpha best pvs cnt) <= 253)%nat ->
       ttc (rootlp rec root d ms s alpha best pvs cnt)
       /\ ((3 <= d)%nat ->
           (exists m, In m ms /\ legal root m = true /\ L1q (make root m)) \/ (32000 <= alpha /\ cnt <> 0%nat) ->
-          RootSeen root (rootlp rec root d ms s alpha best pvs cnt)).
+          RootSeen root (rootlp rec root d ms s alpha best pvs cnt))
+      /\ ((lmoves root = [] -> bavoid root s) -> (2 <= d)%nat \/ lmoves root = [] ->
+          bavoid root (rootlp rec root d ms s alpha best pvs cnt)).
   Proof.
     intros Hold Hmn Hnew Hnm.
-    induction ms as [|m t IH]; intros s alpha best pvs cnt Hin Hs Hc Hr HI IL; cbn [rootloop].
+    induction ms as [|m t IH]; intros s alpha best pvs cnt Hin Hs Hc Hr HI IL H0 IA; cbn [rootloop].
     - destruct cnt as [|cnt].
-      + intros _. split; [exact Hc|]. intros _ [[m [[] _]]|[_ X]]. contradiction.
+      + intros _. split; [exact Hc|]. split; [intros _ [[m [[] _]]|[_ X]]; contradiction|].
+        intros HB _. apply HB. destruct (lmoves root) as [|m0 l0] eqn:E; [reflexivity|].
+        destruct (H0 eq_refl m0 (or_introl eq_refl)).
       + destruct HI as [[X _]|[_ [Ra Hbest]]]; [discriminate|].
-        rewrite (abt_ok s 0 Hr) by lia. cbv beta iota. intros _. split.
+        rewrite (abt_ok s 0 Hr) by lia. cbv beta iota. intros _. split; [|split].
         * apply ttc_set_best. apply ttc_tins; cbn [e_score e_bound e_depth].
           -- eapply ttc_fr; [exact Hc | apply fr_tick].
           -- intros E. rewrite E in Hbest. destruct Hbest.
@@ -577,11 +603,15 @@ Section Seen.
           -- intros l d2 _. apply IL; [exact l | exact d2 | discriminate].
         * intros _ [[m [[] _]]|[X _]]. exists best, alpha. cbn [best_move best_score set_best].
           repeat split; assumption.
+        * intros _ [d2|E]; [|rewrite E in Hbest; destruct Hbest].
+          intros sc Esc Hgt. cbn [best_move best_score set_best] in Esc |- *. inversion Esc; subst sc.
+          exists best. split; [reflexivity|]. apply IA; [exact d2 | discriminate | exact Hgt].
     - assert (Hin' : forall m', In m' t -> In m' (moves root)) by (intros m' H'; apply Hin; right; exact H').
       destruct (legal root m) eqn:L; cbn [negb].
       + cbv zeta.
         assert (Hm : In m (moves root)) by (apply Hin; left; reflexivity).
         assert (Hml : In m (lmoves root)) by (apply in_lm; split; assumption).
+        assert (Hne : lmoves root <> []) by (intros E; rewrite E in Hml; destruct Hml).
         assert (Ra : -32768 <= alpha <= 32766) by (destruct HI as [[_ ->]|[_ [X _]]]; lia).
         set (s0 := enter_node mv s 1 false).
         assert (Hs0 : tts s0) by (eapply tts_fr; [exact Hs | apply fr_enter2]).
@@ -596,6 +626,7 @@ Section Seen.
         assert (Hr1 : run_ s1 = true) by (destruct M1 as [_ ->]; exact Hr).
         rewrite (abt_ok s1 0 Hr1) by lia. cbv beta iota.
         assert (Hs2 : tts (tick s1)) by (eapply tts_fr; [exact (proj1 P1) | apply fr_tick]).
+        assert (HB2 : forall s' : State, lmoves root = [] -> bavoid root s') by (intros s' E; contradiction).
         match goal with |- (sel ?X <= 253)%nat -> _ => assert (HM : Mn (tick s1) X) end.
         { destruct (sc >? alpha); apply rootlp_mn, Hmn. }
         intros Hsel.
@@ -607,41 +638,50 @@ Section Seen.
         revert Hsel.
         destruct (sc >? alpha) eqn:E2; zb.
         * intros Hsel.
-          destruct (IH (tick s1) sc m true (S cnt)) as [T1 T2]; try assumption.
+          destruct (IH (tick s1) sc m true (S cnt)) as [T1 [T2 T3]]; try assumption.
           -- right. split; [discriminate|]. split; [lia | exact Hml].
           -- intros l d2 _. destruct (KW (HWc l) ltac:(lia)); lia.
-          -- split; [exact T1|]. intros d3 Fl. apply T2; [exact d3|].
+          -- intros X. discriminate X.
+          -- intros d2 _ Hgt w. destruct (KW w ltac:(lia)); lia.
+          -- split; [exact T1|]. split; [|intros _; apply T3, HB2]. intros d3 Fl. apply T2; [exact d3|].
              destruct Fl as [[m' [[<-|Hi] [Hl Hq]]]|[X _]].
              ++ right. split; [|discriminate]. destruct (KL Hq ltac:(lia)); lia.
              ++ left. exists m'. split; [exact Hi | split; assumption].
              ++ right. split; [lia | discriminate].
         * assert (Hcn : cnt <> 0%nat) by (destruct HI as [[_ ->]|[X _]]; [lia | exact X]).
           intros Hsel.
-          destruct (IH (tick s1) alpha best pvs (S cnt)) as [T1 T2]; try assumption.
+          destruct (IH (tick s1) alpha best pvs (S cnt)) as [T1 [T2 T3]]; try assumption.
           -- right. destruct HI as [[X _]|[_ X]]; [contradiction|]. split; [discriminate | exact X].
           -- intros l d2 _. apply IL; assumption.
-          -- split; [exact T1|]. intros d3 Fl. apply T2; [exact d3|].
+          -- intros X. discriminate X.
+          -- intros d2 _ Hgt. apply IA; assumption.
+          -- split; [exact T1|]. split; [|intros _; apply T3, HB2]. intros d3 Fl. apply T2; [exact d3|].
              destruct Fl as [[m' [[<-|Hi] [Hl Hq]]]|[X _]].
              ++ right. split; [|discriminate]. destruct (KL Hq ltac:(lia)); lia.
              ++ left. exists m'. split; [exact Hi | split; assumption].
              ++ right. split; [lia | discriminate].
-      + intros Hsel. destruct (IH s alpha best pvs cnt) as [T1 T2]; try assumption.
-        split; [exact T1|]. intros d3 Fl. apply T2; [exact d3|].
-        destruct Fl as [[m' [[<-|Hi] [Hl Hq]]]|X]; [congruence | | right; exact X].
-        left. exists m'. split; [exact Hi | split; assumption].
+      + intros Hsel. destruct (IH s alpha best pvs cnt) as [T1 [T2 T3]]; try assumption.
+        * intros X m' Hm'. destruct (H0 X m' Hm') as [<-|Hi];
+            [apply in_lm in Hm'; destruct Hm'; congruence | exact Hi].
+        * split; [exact T1|]. split; [|exact T3]. intros d3 Fl. apply T2; [exact d3|].
+          destruct Fl as [[m' [[<-|Hi] [Hl Hq]]]|X]; [congruence | | right; exact X].
+          left. exists m'. split; [exact Hi | split; assumption].
   Qed.
 
   Lemma start_seen s root d : Inv root -> nomate1 root -> run_ s = true -> tts s -> ttc s ->
     (sel (start s root d) <= 253)%nat ->
-    ttc (start s root d) /\ (W2q root -> (3 <= d)%nat -> RootSeen root (start s root d)).
+    ttc (start s root d) /\ (W2q root -> (3 <= d)%nat -> RootSeen root (start s root d))
+    /\ ((lmoves root = [] -> bavoid root s) -> (2 <= d)%nat \/ lmoves root = [] -> bavoid root (start s root d)).
   Proof.
     intros HI Hnm Hr Hs Hc. rewrite gstart_eq.
     destruct (moves root) as [|m0 t0] eqn:Em.
-    - intros _. split; [exact Hc|]. intros [m [Hm _]] _. unfold Mate.lmoves in Hm. rewrite Em in Hm. destruct Hm.
+    - assert (En : lmoves root = []) by (unfold Mate.lmoves; rewrite Em; reflexivity).
+      intros _. split; [exact Hc|]. split; [|intros HB _; exact (HB En)].
+      intros [m [Hm _]] _. rewrite En in Hm. destruct Hm.
     - rewrite <- Em. intros Hsel.
       destruct (rootlp_seen (ab_rec FUEL (pred d) 0) root d) with
           (ms := order s root 0%nat (moves root)) (s := s) (alpha := SCORE_MIN) (best := m0) (pvs := false) (cnt := 0%nat)
-        as [T1 T2]; try assumption.
+        as [T1 [T2 T3]]; try assumption.
       + intros m Hm L. apply abrec_old; [apply Inv_make; assumption | lia |].
         right. apply Hnm. apply in_lm. split; assumption.
       + apply abrec_mn.
@@ -653,7 +693,10 @@ Section Seen.
       + intros m. apply order_incl.
       + left. split; reflexivity.
       + intros _ _ X. contradiction.
-      + split; [exact T1|]. intros [m [Hm Hq]] d3. apply T2; [exact d3|].
+      + intros _ m Hm. apply in_lm in Hm.
+        eapply Permutation_in; [apply Permutation_sym, order_perm | apply Hm].
+      + intros _ X. contradiction.
+      + split; [exact T1|]. split; [|exact T3]. intros [m [Hm Hq]] d3. apply T2; [exact d3|].
         left. exists m. apply in_lm in Hm. destruct Hm as [Hm L]. split; [|split; assumption].
         eapply Permutation_in; [apply Permutation_sym, order_perm | exact Hm].
   Qed.
@@ -664,6 +707,11 @@ Section Seen.
 
   Lemma sel_lt (s : State) : (sel s < 254)%nat -> (sel s <= 253)%nat.
   Proof. lia. Qed.
+  Lemma bavoid_fresh root (s : State) : best_score mv s = None -> bavoid root s.
+  Proof. intros H sc E. rewrite H in E. discriminate. Qed.
+  Lemma bavoid_literal root (s : State) : bavoid root s ->
+    forall m sc, best_move mv s = Some m -> best_score mv s = Some sc -> -32000 < sc -> ~ W1 (make root m).
+  Proof. intros H m sc E1 E2 G. destruct (H sc E2 G) as [m' [E1' N]]. rewrite E1 in E1'. inversion E1'; subst m'. exact N. Qed.
 
   Theorem mate_seen_preserved : forall (s : State) (root : pos) (d : nat),
     Inv root -> nomate1 root -> run_ s = true ->
@@ -687,22 +735,39 @@ Section Seen.
   Proof.
     intros s root d HI Hnm HW Hd Hr Hs Hb Hc Hsel.
     destruct (start_snd s root d HI Hnm Hs Hb) as [_ B1].
-    destruct (start_seen s root d HI Hnm Hr Hs Hc (sel_lt _ Hsel)) as [_ T].
+    destruct (start_seen s root d HI Hnm Hr Hs Hc (sel_lt _ Hsel)) as [_ [T _]].
     destruct (T HW Hd) as [m [sc [E1 [E2 [G Hm]]]]].
     exists m, sc. repeat split; try assumption.
     destruct (proj1 (B1 sc E2) G) as [m' [E1' HL]]. rewrite E1 in E1'. inversion E1'; subst m'. exact HL.
   Qed.
 
-  Lemma iter_seen root : Inv root -> nomate1 root -> W2q root ->
-    forall n d s out, run_ s = true -> tts s -> bsound root s -> ttc s ->
+  (* clause 3, cache on: unless the score says "lost", the chosen move does not allow a mate in one *)
+  Theorem avoids_mate_in_one_cache_on : forall (s : State) (root : pos) (d : nat),
+    Inv root -> nomate1 root -> (2 <= d)%nat -> run_ s = true ->
+    tts s -> ttc s -> (lmoves root = [] -> bavoid root s) ->
+    (sel (start s root d) < 254)%nat ->
+    bavoid root (start s root d)
+    /\ (forall m sc, best_move mv (start s root d) = Some m -> best_score mv (start s root d) = Some sc ->
+                     -32000 < sc -> ~ W1 (make root m)).
+  Proof.
+    intros s root d HI Hnm Hd Hr Hs Hc HB Hsel.
+    destruct (start_seen s root d HI Hnm Hr Hs Hc (sel_lt _ Hsel)) as [_ [_ T]].
+    pose proof (T HB (or_introl Hd)) as A. split; [exact A | apply bavoid_literal, A].
+  Qed.
+
+  Lemma iter_seen root : Inv root -> nomate1 root ->
+    forall n d s out, run_ s = true -> tts s -> bsound root s -> ttc s -> (lmoves root = [] -> bavoid root s) ->
       (sel (fst (iter n d s root out)) <= 253)%nat ->
       tts (fst (iter n d s root out)) /\ bsound root (fst (iter n d s root out)) /\ ttc (fst (iter n d s root out))
       /\ run_ (fst (iter n d s root out)) = true
-      /\ (n <> 0%nat -> (3 <= d + n - 1)%nat -> exists sc, best_score mv (fst (iter n d s root out)) = Some sc /\ 32000 <= sc).
+      /\ (W2q root -> n <> 0%nat -> (3 <= d + n - 1)%nat ->
+          exists sc, best_score mv (fst (iter n d s root out)) = Some sc /\ 32000 <= sc)
+      /\ (lmoves root = [] -> bavoid root (fst (iter n d s root out)))
+      /\ (n <> 0%nat -> (2 <= d + n - 1)%nat -> bavoid root (fst (iter n d s root out))).
   Proof.
-    intros HI Hnm HW. induction n as [|n IH]; intros d s out Hr Hs Hb Hc; cbn [iter_loop].
+    intros HI Hnm. induction n as [|n IH]; intros d s out Hr Hs Hb Hc HB; cbn [iter_loop].
     - intros _. cbn [fst]. split; [exact Hs|]. split; [exact Hb|]. split; [exact Hc|]. split; [exact Hr|].
-      intros X. contradiction.
+      split; [intros _ X; contradiction|]. split; [exact HB | intros X; contradiction].
     - pose proof (start_mn s root d) as M1.
       assert (Hr1 : run_ (start s root d) = true) by (destruct M1 as [_ ->]; exact Hr).
       rewrite (abt_ok _ 0 Hr1) by lia. cbv beta iota.
@@ -712,16 +777,23 @@ Section Seen.
       assert (Sel1 : (sel (start s root d) < 254)%nat).
       { destruct M2 as [X _]. cbn [seldepth tick_read tick_load] in X. lia. }
       destruct (mate_seen_preserved s root d HI Hnm Hr Hs Hb Hc Sel1) as [S1 [B1 [C1 _]]].
+      destruct (start_seen s root d HI Hnm Hr Hs Hc (sel_lt _ Sel1)) as [_ [_ TA]].
       assert (S2 : tts (tick (start s root d))) by (eapply tts_fr; [exact S1 | apply fr_tick]).
       assert (C2 : ttc (tick (start s root d))) by (eapply ttc_fr; [exact C1 | apply fr_tick]).
       assert (B2 : bsound root (tick (start s root d))) by exact B1.
-      destruct (IH (S d) (tick (start s root d)) _ Hr1 S2 B2 C2 Hsel) as [S3 [B3 [C3 [R3 G3]]]].
+      assert (HB2 : lmoves root = [] -> bavoid root (tick (start s root d))).
+      { intros E. exact (TA HB (or_intror E)). }
+      destruct (IH (S d) (tick (start s root d)) _ Hr1 S2 B2 C2 HB2 Hsel) as [S3 [B3 [C3 [R3 [G3 [K3 A3]]]]]].
       split; [exact S3|]. split; [exact B3|]. split; [exact C3|]. split; [exact R3|].
-      intros _ Hd. destruct n as [|n'].
-      + cbn [iter_loop fst].
-        destruct (quiet_mate_in_two_seen s root d HI Hnm HW ltac:(lia) Hr Hs Hb Hc Sel1) as [m [sc [_ [E2 [G _]]]]].
-        exists sc. split; [exact E2 | exact G].
-      + apply G3; [discriminate | lia].
+      split; [|split; [exact K3|]].
+      + intros HW _ Hd. destruct n as [|n'].
+        * cbn [iter_loop fst].
+          destruct (quiet_mate_in_two_seen s root d HI Hnm HW ltac:(lia) Hr Hs Hb Hc Sel1) as [m [sc [_ [E2 [G _]]]]].
+          exists sc. split; [exact E2 | exact G].
+        * apply G3; [exact HW | discriminate | lia].
+      + intros _ Hd. destruct n as [|n'].
+        * cbn [iter_loop fst]. apply (TA HB). left. lia.
+        * apply A3; [discriminate | lia].
   Qed.
 
   Theorem quiet_mate_in_two_seen_search : forall (s0 : State) (root : pos) (D : nat),
@@ -735,14 +807,32 @@ Section Seen.
   Proof.
     intros s0 root D HI Hnm HW HD Hr Hs Hc Hbm Hbs. unfold search.
     assert (Hb0 : bsound root s0) by (intros sc E; rewrite Hbs in E; discriminate).
-    pose proof (iter_seen root HI Hnm HW D 1%nat s0 [] Hr Hs Hb0 Hc) as H.
+    pose proof (iter_seen root HI Hnm D 1%nat s0 [] Hr Hs Hb0 Hc (fun _ => bavoid_fresh root s0 Hbs)) as H.
     destruct (iter D 1%nat s0 root []) as [s out]. cbn [fst snd] in H |- *. cbv zeta.
     intros Hsel. cbn [seldepth set_running] in Hsel.
-    destruct (H (sel_lt _ Hsel)) as [S1 [B1 [C1 [_ G]]]].
+    destruct (H (sel_lt _ Hsel)) as [S1 [B1 [C1 [_ [G _]]]]].
     split; [intros q e F; exact (S1 q e F)|]. split; [intros q e F; exact (C1 q e F)|].
-    destruct (G ltac:(lia) ltac:(lia)) as [sc [E2 Gs]].
+    destruct (G HW ltac:(lia) ltac:(lia)) as [sc [E2 Gs]].
     exists sc. cbn [best_score set_running]. split; [exact E2|]. split; [exact Gs|].
     destruct (proj1 (B1 sc E2) Gs) as [m [E1 HL]].
     unfold announced. cbn [best_move set_running]. rewrite E1. exact HL.
+  Qed.
+
+  Theorem avoids_mate_in_one_cache_on_search : forall (s0 : State) (root : pos) (D : nat),
+    Inv root -> nomate1 root -> (2 <= D <= 255)%nat -> run_ s0 = true ->
+    tts s0 -> ttc s0 -> best_move mv s0 = None -> best_score mv s0 = None ->
+    let r := srch s0 root (Some D) in
+    (sel (fst r) < 254)%nat ->
+    forall sc, best_score mv (fst r) = Some sc -> -32000 < sc ->
+      ~ W1 (make root (announced pos mv moves legal default_mv (fst r) root)).
+  Proof.
+    intros s0 root D HI Hnm HD Hr Hs Hc Hbm Hbs. unfold search.
+    assert (Hb0 : bsound root s0) by (intros sc E; rewrite Hbs in E; discriminate).
+    pose proof (iter_seen root HI Hnm D 1%nat s0 [] Hr Hs Hb0 Hc (fun _ => bavoid_fresh root s0 Hbs)) as H.
+    destruct (iter D 1%nat s0 root []) as [s out]. cbn [fst snd] in H |- *. cbv zeta.
+    intros Hsel sc E2 Gs. cbn [seldepth set_running] in Hsel. cbn [best_score set_running] in E2.
+    destruct (H (sel_lt _ Hsel)) as [_ [_ [_ [_ [_ [_ A]]]]]].
+    destruct (A ltac:(lia) ltac:(lia) sc E2 Gs) as [m [E1 N]].
+    unfold announced. cbn [best_move set_running]. rewrite E1. exact N.
   Qed.
 End Seen.
